@@ -3,7 +3,7 @@
    part 2 over the line-reader models that harness/py/checks/c18.py runs against the implementation (C18/Harness.v). *)
 From Miller Require Import Base.Bytes Base.Record C18.BifTable C18.Exceptions C18.Model C18.Proofs C18.TableProofs gen.Gen_BifOutcomes.
 From Miller Require Import C18.VerbTable C18.VerbProofs gen.Gen_VerbOutcomes.
-From Miller Require C01.Model C01.ModelXtab C01.ModelLite C18.ModelReaders C18.ProofsReaders C18.ModelBar C18.ProofsBar.
+From Miller Require C01.Model C01.ModelXtab C01.ModelLite C18.ModelReaders C18.ProofsReaders C18.ModelBar C18.ProofsBar C18.ModelJson C18.ProofsJson.
 Open Scope N_scope.
 
 (* ---- part 1: built-in functions x argument-kind tuples ---- *)
@@ -119,7 +119,7 @@ Proof. split; [exact table_nonvacuous|]. vm_compute. repeat split; reflexivity. 
    is a structurally recursive function bytes -> COk records | CErr class -- the line / field / byte loops recurse on the
    list they consume, no fuel) ---- *)
 Module R.
-Import C01.Model C01.ModelXtab C01.ModelLite C18.ModelReaders C18.ProofsReaders C18.ModelBar C18.ProofsBar.
+Import C01.Model C01.ModelXtab C01.ModelLite C18.ModelReaders C18.ProofsReaders C18.ModelBar C18.ProofsBar C18.ModelJson C18.ProofsJson.
 
 (* CSV, for ALL byte strings and ALL option records (implicit header, lazy quotes, dedupe, ragged, skip-trivial, separator):
    each outcome happens exactly on its malformed class.  The classes, in the order in which they win:
@@ -251,5 +251,30 @@ Example C18_bar_nonvacuous :
   /\ read_bar_c (mkB false true true false) (B "+---+" ++ [LF] ++ B "no bars" ++ [LF] ++ B "| 1 | 2 |" ++ [LF] ++ B "| 3 |" ++ [LF]) = CErr (EMismatch 2 1 4)
   /\ read_bar_c (mkB false true true true) (B "| 1 | 2 |" ++ [LF] ++ B "| 3 |" ++ [LF])
      = COk [[(B "1", B "1"); (B "2", B "2")]; [(B "1", B "3"); (B "2", [])]].
+Proof. vm_compute. repeat split; reflexivity. Qed.
+(* ---- part 2d: Miller's layer over the JSON decoder (record_reader_json.go processHandle), on the sequence of decoded top-level
+   values (the decoder itself is not modelled: a text it rejects is the abstract value TDecodeErr).  For ALL sequences: records
+   exactly when every top-level value is a map or an array of maps (then: the maps in order); otherwise the error of the FIRST
+   offending value -- "unmillerable ... got <kind>" with the kind of the scalar / of the first non-map element, or the decoder's
+   error -- and nothing after it is looked at. *)
+Theorem C18_json_layer_ok_iff : forall vs, (exists ids, json_layer vs = JOk ids) <-> forallb millerable vs = true.
+Proof. exact json_layer_ok_iff. Qed.
+Print Assumptions C18_json_layer_ok_iff.
+
+Theorem C18_json_layer_records : forall vs, forallb millerable vs = true -> json_layer vs = JOk (flat_map top_ids vs).
+Proof. exact json_layer_ok. Qed.
+Print Assumptions C18_json_layer_records.
+
+Theorem C18_json_layer_first_error : forall vs, forallb millerable vs = false ->
+  exists pre bad post e, vs = pre ++ bad :: post /\ forallb millerable pre = true /\ millerable bad = false
+    /\ err_of bad = Some e /\ json_layer vs = JErr e.
+Proof. exact json_layer_err. Qed.
+Print Assumptions C18_json_layer_first_error.
+
+Example C18_json_layer_nonvacuous :
+  json_layer [TMap 1; TArr [EMap 2; EMap 3]; TArr []] = JOk [1; 2; 3]
+  /\ json_layer [TMap 1; TArr [EMap 2; EOther 7; EOther 1]; TDecodeErr] = JErr (JUnmillerable 7)
+  /\ json_layer [TArr [EMap 2]; TScalar 4; TMap 5] = JErr (JUnmillerable 4)
+  /\ json_layer [TMap 1; TDecodeErr; TScalar 1] = JErr JDecode.
 Proof. vm_compute. repeat split; reflexivity. Qed.
 End R.
